@@ -3,7 +3,7 @@ CONSTANTS
   Apis = {"query", "send"}
   Nests = {"none"}
   Kinds = {"ok", "servfail", "formerr", "tc", "garbage", "empty"}
-  Faults = {"sendto", "recvfrom"}
+  Faults = {"sendto", "recvfrom", "socket", "connect"}
   Extras = {"timeout", "cancel", "setservers"}
   MaxReq = 2
   MaxLen = 4
